@@ -282,7 +282,7 @@ func c14Check(c C14Case, rec *Recorder) *Disc {
 		switch {
 		case resp.Status == 204 && eq1(resp.Hdr[hACAO], "https://example.com"):
 			got = true
-		case resp.Status == 403 && len(resp.Hdr[hACAO]) == 0:
+		case len(resp.Hdr[hACAO]) == 0 && (resp.Status < 200 || resp.Status > 299): // refused; the status of a refusal is not documented
 		default:
 			return false, discf("allowed %q lines %q (%s): odd preflight response %s", allowed, lines, when, abbrev(resp.Sig(), 300))
 		}
@@ -290,8 +290,8 @@ func c14Check(c C14Case, rec *Recorder) *Disc {
 		if got != want {
 			return false, discf("allowed names %q, ACRH field lines %q (%s): reference reader says approved=%v, middleware says %v (%s)", allowed, lines, when, want, got, c.Note)
 		}
-		if got && !eqStrs(resp.Hdr[hACAH], lines) {
-			return false, discf("allowed %q lines %q (%s): approved but ACAH %q does not echo the lines", allowed, lines, when, resp.Hdr[hACAH])
+		if got && !sameTokens(resp.Hdr[hACAH], lines) {
+			return false, discf("allowed %q lines %q (%s): approved but ACAH %q does not list exactly the requested names", allowed, lines, when, resp.Hdr[hACAH])
 		}
 		return got, nil
 	}
@@ -349,7 +349,7 @@ func c14Check(c C14Case, rec *Recorder) *Disc {
 		for _, variant := range [][]string{{strings.Join(sub, ",")}, sub, {strings.Join(sub, ", ")}} {
 			r := Do(wrap, Preflight("https://example.com", "GET", variant...), nil)
 			rec.Eval(1)
-			if r.Status != 204 || !eqStrs(r.Hdr[hACAH], variant) {
+			if r.Status != 204 || !sameTokens(r.Hdr[hACAH], variant) {
 				return discf("allowed %q: browser-shaped list %q is not approved (status %d, ACAH %q)", allowed, variant, r.Status, r.Hdr[hACAH])
 			}
 		}
@@ -364,9 +364,36 @@ func c14Prop() Prop[C14Case] {
 			"(allowed names unsorted/repeated, prefix/extension/upper-case variants, runs of 0-20 empties, elements of length maxNameLen-1..+4 of name bytes or OWS, junk over {a b x - , SP HTAB NUL}) each with 0-3 OWS per side. " +
 			"Oracle: debug-off preflight approved (204 + ACAH echo) iff the reference list reader approves - for each field line served alone first, then for all lines together, twice, all through one wrapped handler (the reader has no memory); browser-shaped sublists (joined, one per line, comma-space) always approved. " +
 			"non-trivial = approved with >=2 names / padding / several lines / empties, or rejected solely because of one planted boundary mutation; distinct by (allowed set, lines).",
-		Assumptions: []string{"checked through the public API: status 204 vs 403 of a debug-off preflight from an allowed origin with a safelisted method is the approval bit"}}
+		Assumptions: []string{"checked through the public API: a debug-off preflight from an allowed origin with a safelisted method is approved iff it is answered 204 with ACAO, refused iff it carries no ACAO and a non-2xx status"}}
 }
 
 func TestC14(t *testing.T) { c14Prop().Run(t) }
 
 func FuzzC14(f *testing.F) { FuzzProp(f, c14Prop()) }
+
+
+// sameTokens reports whether two lists of field lines name the same set of
+// non-empty tokens (OWS trimmed); how they are spread over lines is not pinned.
+func sameTokens(a, b []string) bool {
+	set := func(lines []string) map[string]bool {
+		out := map[string]bool{}
+		for _, l := range lines {
+			for _, el := range strings.Split(l, ",") {
+				if t := strings.Trim(el, " \t"); t != "" {
+					out[t] = true
+				}
+			}
+		}
+		return out
+	}
+	x, y := set(a), set(b)
+	if len(x) != len(y) {
+		return false
+	}
+	for t := range x {
+		if !y[t] {
+			return false
+		}
+	}
+	return true
+}
